@@ -21,6 +21,7 @@ import signal
 import importlib
 
 from contextlib import redirect_stdout
+from contextlib import redirect_stderr
 from contextlib import contextmanager
 
 from cnfgen.clitools.graph_args import ObtainGraphAction
@@ -223,6 +224,23 @@ exception, instead of calling exit.
 
     def _get_formatter(self):
         return CLIHelpFormatter(prog=self.prog)
+
+def seed_from_command_line(argv):
+    """Find the value of option '--seed' before the actual parsing
+
+Graph arguments are built while the command line is parsed, therefore
+the random generator must be seeded before the parsing starts.
+Returns `None` when there is no (valid) seed on the command line."""
+    seedparser = argparse.ArgumentParser(add_help=False)
+    seedparser.add_argument('--seed', '-S', type=int, default=None)
+    try:
+        with open(os.devnull, 'w') as devnull:
+            with redirect_stderr(devnull):
+                args, _ = seedparser.parse_known_args(argv)
+    except SystemExit:
+        return None
+    return args.seed
+
 
 def positive_int(value):
     errmsg = "{} was supposed to be a positive integer".format(value)
